@@ -154,6 +154,22 @@ theorem and_lazy2 (C : Ctx D) (r : String) (preA body : List Stmt) (a : CExpr)
   unfold andShape
   exact guarded_second C r preA body a (.var r) s s1 va ba hA hr ha hg
 
+/-- **C04.or_step / and_step** — one more operand of an n-ary chain (`a or b or c` is lowered to
+`r = a; if (!r) {…r = b…} if (!r) {…r = c…}`): the operand's statements run exactly when the
+chain is still undecided. -/
+theorem or_step (C : Ctx D) (r : String) (body : List Stmt) (s : St D) (va : Val D) (ba : Bool)
+    (hr : s.env r = some (.val va)) (hba : asBool C.N va = some ba) :
+    exec C (.ite (.un "!" (.var r)) body []) s = (if ba then .ok s else execs C body s) := by
+  rw [exec_ite_of C s (.un "!" (.var r)) body [] (.bool (!ba)) (!ba)
+    (by simp [evalE, hr, unop_not C.N va ba hba]) (by simp [asBool])]
+  cases ba <;> simp [execs]
+
+theorem and_step (C : Ctx D) (r : String) (body : List Stmt) (s : St D) (va : Val D) (ba : Bool)
+    (hr : s.env r = some (.val va)) (hba : asBool C.N va = some ba) :
+    exec C (.ite (.var r) body []) s = (if ba then execs C body s else .ok s) := by
+  rw [exec_ite_of C s (.var r) body [] va ba (by simp [evalE, hr]) hba]
+  cases ba <;> simp [execs]
+
 /-- the first operand's fault is the fault of the whole lowering (nothing is swallowed) -/
 theorem first_operand_fault (C : Ctx D) (preA rest : List Stmt) (s : St D) (f : Fault)
     (hA : execs C preA s = .error f) : execs C (preA ++ rest) s = .error f := by
@@ -188,7 +204,8 @@ example (C : Ctx D) (s : St D) (hr : (s.env "r").isSome = true) :
     (by simp [execs]) hr (by simp [evalE]) (by simp [asBool])
   simpa using this
 
-/-- the recogniser finds the shapes it is meant to find -/
+/-- the recogniser finds the shapes it is meant to find (a three-operand chain counts twice) -/
+example : countShapesL none (orShape "r" [] (.bool true) (thenSet [] "r" (.bool false)) ++ [.ite (.un "!" (.var "r")) (thenSet [] "r" (.bool true)) []]) = ⟨0, 2, 0⟩ := by decide
 example : countShapesL none (orShape "r" [] (.bool true) (thenSet [] "r" (.bool false))) = ⟨0, 1, 0⟩ := by decide
 example : countShapesL none (andShape "r" [] (.bool true) [.ite (.var "f") [.set "f" (.bool false), .set "r" (.var "x")] []]) = ⟨1, 0, 0⟩ := by decide
 example : countShapesL none (iteShape [] (.var "c") (thenSet [] "r" (.int 1)) (thenSet [] "r" (.int 2))) = ⟨0, 0, 1⟩ := by decide
